@@ -1,7 +1,7 @@
 (* C16 -- proofs: the shift/mask model equals the IEEE class of the fields, for every bit pattern. *)
 From Coq Require Import NArith ZArith Bool Lia.
 From Flocq Require Import IEEE754.Binary IEEE754.Bits.
-From C16 Require Import C16Spec C16Model.
+From C16 Require Import C16Spec C16Flocq C16Model.
 Local Open Scope N_scope.
 
 (* ---------- unsigned shifts and masks as div / mod ---------- *)
